@@ -139,8 +139,8 @@ func strRep(r *rand.Rand, v string, field string) rep {
 		return s
 	}
 	out := rep{val: c.val, name: c.name, offType: norm(el) != norm(base)}
-	if field == "note" && v == "" && (c.name == "string" || c.name == "Status") {
-		out.isNull = true // implicitnull: a non-pointer zero value is written and filtered as NULL
+	if field == "note" && v == "" && (c.name == "string" || c.name == "Status" || c.name == "*string") {
+		out.isNull = true // implicitnull: a zero value (also behind a pointer, since fix b37c1f7) is written and filtered as NULL
 	}
 	return out
 }
